@@ -32,7 +32,7 @@ type CaseC09 struct {
 	Tail   int        `json:"tail"`    // decoded path: 0xFF bytes after the section in the decoder's input
 }
 
-const c09Kinds = 43
+const c09Kinds = 45
 
 func genC09(t *rapid.T) CaseC09 {
 	c := CaseC09{}
@@ -65,7 +65,7 @@ func genC09(t *rapid.T) CaseC09 {
 			if rapid.Bool().Draw(t, "mut-small") {
 				m.V = genBits(t, 33, "mut-v33")
 			}
-			if m.Kind == 32 || m.Kind == 33 {
+			if m.Kind == 32 || m.Kind == 33 || m.Kind == 43 {
 				m.Data = genBytes(t, 0, 12, "mut-data")
 			}
 			return m
@@ -494,6 +494,37 @@ func c09Apply(st *c09State, mu MutC09) string {
 		nd.Num, nd.Event = byte(mu.V>>8), uint32(mu.V>>16)
 		m.Descs = append(m.Descs, nd)
 		return fmt.Sprintf("adopt descriptor of another signal (decoded %v) and edit it through the caller's handle", mu.B)
+	case 43:
+		// edit an entry of the multiple-UPID list through the handle MID() returns
+		if md.UPIDType != 0x0D || len(md.MID) == 0 {
+			return ""
+		}
+		hs := d.MID()
+		if len(hs) != len(md.MID) {
+			return ""
+		}
+		i := int(mu.V>>8) % len(hs)
+		ty := byte(1 + mu.V%12)
+		data := mu.Data
+		if data == nil {
+			data = ref.Hex{}
+		}
+		hs[i].SetUPIDType(scte35.SegUPIDType(ty))
+		hs[i].SetUPID(st.window(data))
+		md.MID[i] = ref.SegUPID{Type: ty, Body: clone(data)}
+		return fmt.Sprintf("descriptor[%d].MID()[%d].SetUPIDType(%#x)/SetUPID(%d bytes)", mu.K, i, ty, len(data))
+	case 44:
+		// edit a component through the handle Components() returns
+		hs := d.Components()
+		if len(hs) == 0 || len(hs) != len(md.Comps) {
+			return ""
+		}
+		i := int(mu.V>>40) % len(hs)
+		off := mu.V & m33
+		hs[i].SetPTSOffset(gots.PTS(off))
+		hs[i].SetComponentTag(byte(mu.V >> 33))
+		md.Comps[i] = ref.SegOffset{Tag: byte(mu.V >> 33), Offset: off}
+		return fmt.Sprintf("descriptor[%d].Components()[%d].SetPTSOffset(%d)/SetComponentTag(%#x)", mu.K, i, off, byte(mu.V>>33))
 	case 40:
 		// the descriptor's own component list handed back in another order (reverse / rotate / first one repeated in front)
 		cs := d.Components()
@@ -738,7 +769,7 @@ func c09VerifyEncoding(st *c09State, c CaseC09, what string) *hx.Failure {
 var propC09 = hx.Register(hx.Prop[CaseC09]{ID: "C09", Gen: genC09, Check: checkC09})
 
 func c09Rule() {
-	hx.Rec("C09").SetRule("cases: a reference-model signal (C08 generator; time-less time_signal / splice_insert forms added on the API path) realised either (api) through CreateSCTE35/Create*Command/CreateSegmentationDescriptor/CreateUPID/CreateComponentOffset and setters with a drawn selection of set-then-clear noise, out-of-width values and UPID-kind switching, or (decoded) by decoding the reference encoding; then a drawn history of 0..8 further setter calls out of 42 kinds (signal, command, descriptor, descriptor-list and command replacement, adopting a descriptor of another signal and editing it through the caller's handle, a descriptor's own component / MID list handed back reordered; the byte slices given to SetUPID are adjacent windows of one caller buffer) is applied to the library object and to the model. Oracle: UpdateData() = reference encoding of the model in the library's normal form, byte for byte (alignment-stuffing byte values masked); reference CRC residue 0; section_length consistent; Data() unchanged by setters and equal to the encoding afterwards; UpdateData twice and String() leave the bytes unchanged; descriptor getters reflect the setters; decoding the encoded bytes reports the model (when the decoder supports the form); with an empty history a decoded canonical section re-encodes to itself. Non-trivial: cancelled/component/immediate splice_insert, a field with a bit >= 32, >= 2 descriptor shapes or >= 2 descriptors, set-then-clear noise, or a flag cleared by a setter.",
+	hx.Rec("C09").SetRule("cases: a reference-model signal (C08 generator; time-less time_signal / splice_insert forms added on the API path) realised either (api) through CreateSCTE35/Create*Command/CreateSegmentationDescriptor/CreateUPID/CreateComponentOffset and setters with a drawn selection of set-then-clear noise, out-of-width values and UPID-kind switching, or (decoded) by decoding the reference encoding; then a drawn history of 0..8 further setter calls out of 44 kinds (signal, command, descriptor, descriptor-list and command replacement, adopting a descriptor of another signal and editing it through the caller's handle, editing MID entries and components through the handles the getters return, a descriptor's own component / MID list handed back reordered; the byte slices given to SetUPID are adjacent windows of one caller buffer) is applied to the library object and to the model. Oracle: UpdateData() = reference encoding of the model in the library's normal form, byte for byte (alignment-stuffing byte values masked); reference CRC residue 0; section_length consistent; Data() unchanged by setters and equal to the encoding afterwards; UpdateData twice and String() leave the bytes unchanged; descriptor getters reflect the setters; decoding the encoded bytes reports the model (when the decoder supports the form); with an empty history a decoded canonical section re-encodes to itself. Non-trivial: cancelled/component/immediate splice_insert, a field with a bit >= 32, >= 2 descriptor shapes or >= 2 descriptors, set-then-clear noise, or a flag cleared by a setter.",
 		"foreign descriptors after a segmentation descriptor and splice_command_length 0xFFF are compared against the library's normal form (foreign first, real length)",
 		"after SetTypeID the sub-segment flag is re-set explicitly (undocumented interaction)",
 		"signals the decoder does not support (time-less forms) are checked against the reference encoder only")
